@@ -1352,7 +1352,20 @@ impl ContextualHuffmanEncoder {
             offset += 4;
             let tree_idx = u32::from_le_bytes([data[offset], data[offset + 1], data[offset + 2], data[offset + 3]]) as usize;
             offset += 4;
+            // Every lookup indexes `trees` with this value, so it must name an existing tree
+            if tree_idx >= tree_count {
+                return Err(ZiporaError::invalid_data("Context map refers to a missing tree"));
+            }
             context_map.insert(context, tree_idx);
+        }
+
+        // Encoding and decoding always consult tree 0, and each stored tree takes at least its
+        // 4-byte size prefix: reject counts the remaining input cannot hold before reserving.
+        if tree_count == 0 {
+            return Err(ZiporaError::invalid_data("Contextual Huffman data holds no tree"));
+        }
+        if tree_count > (data.len() - offset) / 4 {
+            return Err(ZiporaError::invalid_data("Tree count exceeds remaining input"));
         }
 
         // Read trees
@@ -1988,8 +2001,10 @@ impl ContextualHuffmanDecoder {
 
         // Decode first symbol with first tree
         let first_tree = &self.encoder.trees[0];
-        if let Ok(first_symbol) = self.decode_next_symbol(encoded_data, &mut byte_idx, &mut bit_pos, first_tree) {
-            result.push(first_symbol);
+        match self.decode_next_symbol(encoded_data, &mut byte_idx, &mut bit_pos, first_tree) {
+            Ok(first_symbol) => result.push(first_symbol),
+            // Nothing decodable: the caller reports the length mismatch
+            Err(_) => return Ok(result),
         }
 
         // Decode remaining symbols with context
@@ -2029,6 +2044,12 @@ impl ContextualHuffmanDecoder {
             } else {
                 break;
             }
+        }
+
+        // The context below needs both leading symbols; if they could not be decoded the
+        // caller reports the length mismatch
+        if result.len() < 2 {
+            return Ok(result);
         }
 
         // Decode remaining symbols with 2-symbol context
